@@ -314,7 +314,7 @@ pub fn run(ctx: &mut Ctx) {
         "cases are (source format, target format, value) with the value an integer raw value or an IEEE bit pattern; integer sources \
          enumerated exhaustively (<=24 bit; thorough <=32 bit) or structured (top 24 bits x low patterns, boundaries, random, and for every magnitude the neighbourhood of the mantissa's rounding half-way point +- {0,1,2, a few low bits}); float \
          sources only inside the documented domain [-1.0, 1.0): all f32 patterns (thorough) or one seed-chosen pattern per window of 64 \
-         (quick), f64 by proptest over sign/exponent/mantissa plus truncation decision points (k +- 0..2 ulp)/2^(bits-1); non-trivial: \
+         (quick), f64 by proptest over sign/exponent/mantissa plus truncation decision points (k +- 0..2 ulp)/2^(bits-1), plus boundary patterns of both float types (the largest values below 1.0, powers of two and their neighbours, zeros, subnormals); non-trivial: \
          int source not MIN/eq/MAX, float->int input negative or with a non-zero fractional part after scaling, any float<->float case",
     );
     ctx.assume("oracle = soft-float round-to-nearest-even of amp/2^(bits-1) (int->float), trunc(x*2^(bits-1)) on the decomposed float in i128 (float->int), soft-float widening/narrowing (float<->float); the soft-float routines are cross-checked against hardware casts at start-up");
@@ -429,6 +429,35 @@ pub fn run(ctx: &mut Ctx) {
         },
         check_dyn,
     );
+
+    // (d'') float -> int boundary patterns: the k largest values below 1.0 and above -1.0, -1.0, zeros, the smallest subnormals,
+    // and every power of two 2^-e (e = 1..=70) with its two neighbours, both signs, into every integer format
+    let mut bc = Vec::new();
+    let mut f32s: Vec<u32> = vec![0, 1, 2, 0x0080_0000, 0x007f_ffff];
+    let mut f64s: Vec<u64> = vec![0, 1, 2, 0x0010_0000_0000_0000, 0x000f_ffff_ffff_ffff];
+    for k in 1..=4u32 {
+        f32s.push(1.0f32.to_bits() - k);
+        f64s.push(1.0f64.to_bits() - k as u64);
+    }
+    for e in 1..=70i32 {
+        for j in -1i64..=1 {
+            f32s.push((2f32.powi(-e).to_bits() as i64 + j) as u32);
+            f64s.push((2f64.powi(-e).to_bits() as i64 + j) as u64);
+        }
+    }
+    for &d in &INT_KINDS {
+        for &b in &f32s {
+            bc.push(Case { src: Kind::F32, dst: d, raw: b as i128 });
+            bc.push(Case { src: Kind::F32, dst: d, raw: (b | 0x8000_0000) as i128 });
+        }
+        for &b in &f64s {
+            bc.push(Case { src: Kind::F64, dst: d, raw: b as i128 });
+            bc.push(Case { src: Kind::F64, dst: d, raw: (b | (1u64 << 63)) as i128 });
+        }
+        bc.push(Case { src: Kind::F32, dst: d, raw: (-1.0f32).to_bits() as i128 });
+        bc.push(Case { src: Kind::F64, dst: d, raw: (-1.0f64).to_bits() as i128 });
+    }
+    ctx.enumerate("float->int/boundaries", true, bc.into_iter(), check_dyn);
 
     // (e) f64 -> int: random domain values
     let strat = (f64_domain_bits(), 0..INT_KINDS.len()).prop_map(|(b, d)| Case { src: Kind::F64, dst: INT_KINDS[d], raw: b as i128 });
